@@ -56,6 +56,7 @@ func c08Items(name string, thorough bool) []item {
 		add(validity251())
 	case s.length == 15:
 		add(stringPlacements())
+		add(stringRuns(thorough))
 	case s.length == 0:
 		add(varStrings())
 	}
